@@ -11,12 +11,15 @@ import (
 	"io"
 	"log"
 	"os"
+	"runtime/debug"
 	"strconv"
 )
 
 var checks = map[string]func(*Ctx){}
 
 func main() {
+	// a soft limit: the collector works harder instead of letting the heap of a long thorough run double past the machine
+	debug.SetMemoryLimit(24 << 30)
 	if os.Getenv("VERIF_LOG") == "" {
 		log.SetOutput(io.Discard) // the emulator logs bad patterns etc.; not part of any observation
 	}
